@@ -83,9 +83,15 @@ func (c *CompressorGzip) Decompress(r io.Reader) (io.Reader, error) {
 }
 
 func (z *gzipReader) Read(p []byte) (n int, err error) {
+	if z.Reader == nil {
+		return 0, io.EOF // already returned to the pool
+	}
 	n, err = z.Reader.Read(p)
 	if err == io.EOF {
-		z.pool.Put(z)
+		// Hand the decompressor back exactly once; this wrapper must not
+		// touch it again as another request may be using it.
+		z.pool.Put(&gzipReader{Reader: z.Reader, pool: z.pool})
+		z.Reader = nil
 	}
 	return n, err
 }
